@@ -360,7 +360,7 @@ func (r *replayer) binary(pkg string) (string, error) {
 	ovFile := filepath.Join(r.tmp, pkg+"_overlay.json")
 	os.WriteFile(ovFile, ov, 0644)
 	bin := filepath.Join(r.tmp, pkg+".test")
-	cmd := exec.Command("go", "test", "-c", "-vet=off", "-tags=verif", "-overlay", ovFile, "-o", bin, "./"+sub)
+	cmd := exec.Command(goRoot+"/bin/go", "test", "-c", "-vet=off", "-tags=verif", "-overlay", ovFile, "-o", bin, "./"+sub)
 	cmd.Dir = r.repo
 	cmd.Env = goEnv()
 	out, err := cmd.CombinedOutput()
